@@ -46,6 +46,7 @@ theorem validateWriteScope_spec {s : State} {id : ScopeId} {owners : List Party}
     (vo ≠ "" → ∀ o, HolderIs s.ledger id o → o ≠ some vo →
       agents = effectiveSigners s signers ∧
       ∀ h, o = some h → VoConsent s s.grants (effectiveSigners s signers) .write h) := by
+  have hsd := validateWriteScope_scopeDenom h
   unfold validateWriteScope at h
   split at h
   · simp at h
@@ -74,7 +75,7 @@ theorem validateWriteScope_spec {s : State} {id : ScopeId} {owners : List Party}
             obtain ⟨hw2, hcase⟩ := validateScopeValueOwnersSigners_spec hw1 hv
             have hw3 := validateSmartContractSigners_wf hw2 hc
             refine ⟨hsg, hw3, fun hvo o ho hne => ?_⟩
-            obtain ⟨o0, ho0, hne0, hsc0⟩ := hinv id
+            obtain ⟨o0, ho0, hne0, hsc0⟩ := hinv id hsd
             have := holderIs_unique ho ho0; subst this
             unfold writeExistingVO at hev
             rw [findScope_isSome] at hev
@@ -114,6 +115,7 @@ theorem write_step {s s' : State} {id : ScopeId} {owners : List Party} {rollup :
     obtain ⟨a, agents⟩ := r
     rw [hv] at h; simp only at h
     obtain ⟨hsg, _, hcons⟩ := validateWriteScope_spec hinv hv
+    have hsd := validateWriteScope_scopeDenom hv
     unfold setScope at h
     by_cases hvo : vo ≠ ""
     · rw [if_pos hvo] at h
@@ -121,10 +123,10 @@ theorem write_step {s s' : State} {id : ScopeId} {owners : List Party} {rollup :
       | error e => rw [hsv] at h; simp at h
       | ok s2 =>
         rw [hsv] at h; simp at h; subst h
-        obtain ⟨hfr, hother, hid⟩ := setScopeValueOwner_spec (s := { s with grants := a.grants }) hinv.allHeld hsv
+        obtain ⟨hfr, hother, hid⟩ := setScopeValueOwner_spec (s := { s with grants := a.grants }) hinv.allHeld hsd hsv
         refine ⟨?_, ?_, fun e => absurd e hvo⟩
-        · intro d
-          obtain ⟨o, ho, hne, hsc⟩ := hinv d
+        · intro d hdd
+          obtain ⟨o, ho, hne, hsc⟩ := hinv d hdd
           by_cases hd : d = id
           · subst hd
             refine ⟨some vo, ?_, ?_, ?_⟩
@@ -135,12 +137,12 @@ theorem write_step {s s' : State} {id : ScopeId} {owners : List Party} {rollup :
             rw [hasScope_putScope, hasScope_congr hfr.scopes]
             have hh : hasScope { s with grants := a.grants } d = hasScope s d := rfl
             rw [hh]; simp [hsc hso]
-        · intro d o o' ho ho' hne
+        · intro d hdd o o' ho ho' hne
           by_cases hd : d = id
           · subst hd
-            obtain ⟨_, _, hne0, _⟩ := hinv d
+            obtain ⟨_, _, hne0, _⟩ := hinv d hdd
             have hne1 : o ≠ some "" := by
-              obtain ⟨o1, ho1, hn1, _⟩ := hinv d
+              obtain ⟨o1, ho1, hn1, _⟩ := hinv d hdd
               rw [holderIs_unique ho ho1]; exact hn1
             obtain ⟨hnew, hsend⟩ := hid o ho hne1
             rw [optAddr_ne hvo] at hnew hsend
@@ -165,8 +167,8 @@ theorem write_step {s s' : State} {id : ScopeId} {owners : List Party} {rollup :
       rw [if_neg hvo] at h
       simp at h; subst h
       refine ⟨?_, goodStep_of_ledger_eq _ _ rfl, fun _ => rfl⟩
-      intro d
-      obtain ⟨o, ho, hne, hsc⟩ := hinv d
+      intro d hdd
+      obtain ⟨o, ho, hne, hsc⟩ := hinv d hdd
       refine ⟨o, ho, hne, fun hso => ?_⟩
       rw [hasScope_putScope]
       have : hasScope { s with grants := a.grants } d = hasScope s d := hasScope_congr rfl d
@@ -180,6 +182,7 @@ theorem validateDeleteScope_spec {s : State} {id : ScopeId} {signers : List Addr
     (∀ o, HolderIs s.ledger id o →
       agents = effectiveSigners s signers ∧
       ∀ x, o = some x → VoConsent s s.grants (effectiveSigners s signers) .delete x) := by
+  have hsd := validateDeleteScope_scopeDenom h
   unfold validateDeleteScope at h
   split at h
   · simp at h
@@ -195,7 +198,7 @@ theorem validateDeleteScope_spec {s : State} {id : ScopeId} {signers : List Addr
       | ok r =>
         obtain ⟨a1, used1⟩ := r
         rw [hp] at h; simp only at h
-        obtain ⟨o0, ho0, hne0, _⟩ := hinv id
+        obtain ⟨o0, ho0, hne0, _⟩ := hinv id hsd
         rw [denomOwner_of_holderIs ho0] at h; simp only at h
         cases hv : validateScopeValueOwnersSigners s a1 o0.toList "" signers .delete with
         | error er => rw [hv] at h; simp at h
@@ -231,6 +234,7 @@ theorem delete_step {s s' : State} {id : ScopeId} {signers : List Addr}
     obtain ⟨a, agents⟩ := r
     rw [hv] at h; simp only at h
     obtain ⟨hsg, hhas, hcons⟩ := validateDeleteScope_spec hinv hv
+    have hsd := validateDeleteScope_scopeDenom hv
     unfold removeScope at h
     have hhas' : hasScope { s with grants := a.grants } id = true := by rw [hasScope_congr rfl]; exact hhas
     simp only [hhas', Bool.not_true, Bool.false_eq_true, if_false] at h
@@ -238,22 +242,22 @@ theorem delete_step {s s' : State} {id : ScopeId} {signers : List Addr}
     | error e => rw [hsv] at h; simp at h
     | ok s2 =>
       rw [hsv] at h; simp at h; subst h
-      obtain ⟨hfr, hother, hid⟩ := setScopeValueOwner_spec (s := { s with grants := a.grants }) hinv.allHeld hsv
-      obtain ⟨o0, ho0, hne0, _⟩ := hinv id
+      obtain ⟨hfr, hother, hid⟩ := setScopeValueOwner_spec (s := { s with grants := a.grants }) hinv.allHeld hsd hsv
+      obtain ⟨o0, ho0, hne0, _⟩ := hinv id hsd
       have hnone : HolderIs s2.ledger id none := by
         have := (hid o0 ho0 hne0).1; rwa [optAddr_empty] at this
       refine ⟨?_, ?_, ?_, hnone⟩
-      · intro d
+      · intro d hdd
         by_cases hd : d = id
         · subst hd
           exact ⟨none, hnone, by simp, by simp⟩
-        · obtain ⟨o, ho, hne, hsc⟩ := hinv d
+        · obtain ⟨o, ho, hne, hsc⟩ := hinv d hdd
           refine ⟨o, hother d hd o ho, hne, fun hso => ?_⟩
           rw [hasScope_dropScope, hasScope_congr hfr.scopes]
           have : ¬ id = d := fun e => hd e.symm
           have hh : hasScope { s with grants := a.grants } d = hasScope s d := rfl
           rw [hh]; simp [this, hsc hso]
-      · intro d o o' ho ho' hne
+      · intro d hdd o o' ho ho' hne
         by_cases hd : d = id
         · subst hd
           have := holderIs_unique ho ho0; subst this
@@ -411,27 +415,27 @@ theorem moveValueOwners_step {s s' : State} {links : List Link} {vo : Addr} {sig
     (hv : validateUpdateValueOwners s links vo signers mt = .ok (a, agents))
     (h : setScopeValueOwners { s with grants := a.grants } agents links vo = .ok s') :
     Inv s' ∧ GoodStep s (.msg mt) (effectiveSigners s signers) s' ∧
-    (∀ d, supply s'.ledger d = supply s.ledger d) := by
+    (∀ d, isScopeDenom d = true → supply s'.ledger d = supply s.ledger d) := by
   obtain ⟨hag, hcons⟩ := validateUpdateValueOwners_spec hv
   subst hag
   obtain ⟨hfr, hmoves⟩ := setScopeValueOwners_spec h
   refine ⟨?_, ?_, ?_⟩
-  · intro d
-    obtain ⟨o, ho, hne, hsc⟩ := hinv d
+  · intro d hdd
+    obtain ⟨o, ho, hne, hsc⟩ := hinv d hdd
     rcases hmoves d o ho with h1 | ⟨f, _, _, he, _, _, hfin⟩
     · exact ⟨o, h1, hne, fun hso => by rw [hasScope_congr hfr.scopes]; exact hsc hso⟩
     · refine ⟨some vo, hfin, fun e => hvo (by injection e), fun _ => ?_⟩
       rw [hasScope_congr hfr.scopes]
       exact hsc (by rw [he]; rfl)
-  · intro d o o' ho ho' hne
+  · intro d hdd o o' ho ho' hne
     rcases hmoves d o ho with h1 | ⟨f, hf, hfne, he, hw, hdp, hfin⟩
     · exact absurd (holderIs_unique h1 ho') hne
     · have : o' = some vo := holderIs_unique ho' hfin
       subst this
       subst he
-      obtain ⟨_, _, hne0, _⟩ := hinv d
+      obtain ⟨_, _, hne0, _⟩ := hinv d hdd
       have hf0 : f ≠ "" := by
-        obtain ⟨o1, ho1, hn1, _⟩ := hinv d
+        obtain ⟨o1, ho1, hn1, _⟩ := hinv d hdd
         have := holderIs_unique ho ho1; subst this
         intro e; exact hn1 (by rw [e])
       refine ⟨fun x hx => ?_, fun x hx => ?_⟩
@@ -443,8 +447,8 @@ theorem moveValueOwners_step {s s' : State} {links : List Link} {vo : Addr} {sig
         have hdp' : depositOk s (effectiveSigners s signers) f vo = true := by
           rw [← hdp]; exact (depositOk_congr rfl _ _ _).symm
         exact depositP_of_agents hdp' (effectiveSigners_ne_nil hsg)
-  · intro d
-    obtain ⟨o, ho, _, _⟩ := hinv d
+  · intro d hdd
+    obtain ⟨o, ho, _, _⟩ := hinv d hdd
     rcases hmoves d o ho with h1 | ⟨f, _, _, he, _, _, hfin⟩
     · rw [h1.1, ho.1]
     · rw [hfin.1, ho.1, he]; rfl
@@ -452,7 +456,7 @@ theorem moveValueOwners_step {s s' : State} {links : List Link} {vo : Addr} {sig
 theorem updvo_step {s s' : State} {ids : List ScopeId} {vo : Addr} {signers : List Addr}
     (hinv : Inv s) (h : updateValueOwners s ids vo signers = .ok s') :
     Inv s' ∧ GoodStep s (.msg .updvo) (effectiveSigners s signers) s' ∧
-    (∀ d, supply s'.ledger d = supply s.ledger d) := by
+    (∀ d, isScopeDenom d = true → supply s'.ledger d = supply s.ledger d) := by
   unfold updateValueOwners at h
   split at h
   · simp at h
@@ -467,12 +471,12 @@ theorem updvo_step {s s' : State} {ids : List ScopeId} {vo : Addr} {signers : Li
       | ok r =>
         obtain ⟨a, agents⟩ := r
         rw [hv] at h; simp only at h
-        exact moveValueOwners_step hinv hvalid.1.2 hvalid.2 hv h
+        exact moveValueOwners_step hinv hvalid.1.1.2 hvalid.1.2 hv h
 
 theorem migrate_step {s s' : State} {ex pr : Addr} {signers : List Addr}
     (hinv : Inv s) (h : migrateValueOwner s ex pr signers = .ok s') :
     Inv s' ∧ GoodStep s (.msg .migrate) (effectiveSigners s signers) s' ∧
-    (∀ d, supply s'.ledger d = supply s.ledger d) := by
+    (∀ d, isScopeDenom d = true → supply s'.ledger d = supply s.ledger d) := by
   unfold migrateValueOwner at h
   split at h
   · simp at h
@@ -505,8 +509,8 @@ theorem send_step {s s' : State} {frm to : Addr} {ids : List ScopeId}
     · have hfr := sendCoins_frame h
       obtain ⟨_, _, hdp, _⟩ := sendCoins_ok h
       refine ⟨?_, ?_, ?_⟩
-      · intro d
-        obtain ⟨o, ho, hne, hsc⟩ := hinv d
+      · intro d hdd
+        obtain ⟨o, ho, hne, hsc⟩ := hinv d hdd
         obtain ⟨hsrc, hfin⟩ := sendCoins_holder hnd' h ho
         by_cases hd : d ∈ ids
         · simp only [hd, if_true] at hfin
@@ -515,7 +519,7 @@ theorem send_step {s s' : State} {frm to : Addr} {ids : List ScopeId}
           exact hsc (by rw [hsrc hd]; rfl)
         · simp only [hd, if_false] at hfin
           exact ⟨o, hfin, hne, fun hso => by rw [hasScope_congr hfr.scopes]; exact hsc hso⟩
-      · intro d o o' ho ho' hne
+      · intro d hdd o o' ho ho' hne
         obtain ⟨hsrc, hfin⟩ := sendCoins_holder hnd' h ho
         by_cases hd : d ∈ ids
         · simp only [hd, if_true] at hfin
@@ -529,13 +533,8 @@ theorem send_step {s s' : State} {frm to : Addr} {ids : List ScopeId}
         · simp only [hd, if_false] at hfin
           exact absurd (holderIs_unique hfin ho') hne
       · intro d
-        obtain ⟨o, ho, _, _⟩ := hinv d
-        obtain ⟨hsrc, hfin⟩ := sendCoins_holder hnd' h ho
-        by_cases hd : d ∈ ids
-        · simp only [hd, if_true] at hfin
-          rw [hfin.1, ho.1, hsrc hd]; rfl
-        · simp only [hd, if_false] at hfin
-          rw [hfin.1, ho.1]
+        obtain ⟨_, _, _, rfl⟩ := sendCoins_ok h
+        simp [supply_move]
 
 /-! ### marker MsgWithdraw -/
 
@@ -571,8 +570,8 @@ theorem mwithdraw_step {s s' : State} {marker admin to : Addr} {ids : List Scope
                 have hw' : m.has admin .withdraw = true := by simpa using hw
                 have hdp' : depositOk s [admin] marker to = true := by simpa using hdp
                 refine ⟨?_, ?_, ?_⟩
-                · intro d
-                  obtain ⟨o, ho, hne, hsc⟩ := hinv d
+                · intro d hdd
+                  obtain ⟨o, ho, hne, hsc⟩ := hinv d hdd
                   obtain ⟨hsrc, hfin⟩ := holderIs_move (b := to) hnd' hf' ho
                   by_cases hd : d ∈ ids
                   · simp only [hd, if_true] at hfin
@@ -580,7 +579,7 @@ theorem mwithdraw_step {s s' : State} {marker admin to : Addr} {ids : List Scope
                     exact hsc (by rw [hsrc hd]; rfl)
                   · simp only [hd, if_false] at hfin
                     exact ⟨o, hfin, hne, hsc⟩
-                · intro d o o' ho ho' hne
+                · intro d hdd o o' ho ho' hne
                   obtain ⟨hsrc, hfin⟩ := holderIs_move (b := to) hnd' hf' ho
                   by_cases hd : d ∈ ids
                   · simp only [hd, if_true] at hfin
@@ -595,20 +594,121 @@ theorem mwithdraw_step {s s' : State} {marker admin to : Addr} {ids : List Scope
                   · simp only [hd, if_false] at hfin
                     exact absurd (holderIs_unique hfin ho') hne
                 · intro d
-                  obtain ⟨o, ho, _, _⟩ := hinv d
-                  obtain ⟨hsrc, hfin⟩ := holderIs_move (b := to) hnd' hf' ho
-                  by_cases hd : d ∈ ids
-                  · simp only [hd, if_true] at hfin
-                    rw [hfin.1, ho.1, hsrc hd]; rfl
-                  · simp only [hd, if_false] at hfin
-                    rw [hfin.1, ho.1]
+                  simp [supply_move]
+
+/-! ### bank MsgMultiSend -/
+
+theorem msendLoop_spec {frm : Addr} {outs : List (Addr × List ScopeId)} {s s' : State}
+    (hnd : ∀ o ∈ outs, o.2.Nodup) (h : msendLoop frm s outs = .ok s') :
+    Frame s s' ∧ (∀ d, supply s'.ledger d = supply s.ledger d) ∧
+    ∀ d o, HolderIs s.ledger d o →
+      HolderIs s'.ledger d o ∨
+      (o = some frm ∧ ∃ to ∈ outs.map (·.1), depositOk s [] frm to = true ∧ HolderIs s'.ledger d (some to)) := by
+  induction outs generalizing s with
+  | nil => simp [msendLoop] at h; subst h; exact ⟨Frame.refl _, fun _ => rfl, fun d o ho => Or.inl ho⟩
+  | cons out rest ih =>
+    obtain ⟨to, ids⟩ := out
+    unfold msendLoop at h
+    cases hs : sendCoins s [] frm to ids with
+    | error e => rw [hs] at h; simp at h
+    | ok s1 =>
+      rw [hs] at h; simp only at h
+      obtain ⟨hfr1, hsup1, hr⟩ := ih (fun o ho => hnd o (List.mem_cons_of_mem _ ho)) h
+      have hfr0 := sendCoins_frame hs
+      obtain ⟨_, _, hdp, hs1⟩ := sendCoins_ok hs
+      refine ⟨hfr0.trans hfr1, fun d => ?_, fun d o ho => ?_⟩
+      · rw [hsup1 d, hs1]; simp [supply_move]
+      · obtain ⟨hsrc, hmid⟩ := sendCoins_holder (hnd (to, ids) (by simp)) hs ho
+        by_cases hd : d ∈ ids
+        · simp only [hd, if_true] at hmid
+          have ho' := hsrc hd
+          rcases hr d (some to) hmid with h1 | ⟨_, to2, hto2, hdp2, hfin⟩
+          · exact Or.inr ⟨ho', to, by simp, hdp, h1⟩
+          · refine Or.inr ⟨ho', to2, ?_, ?_, hfin⟩
+            · simp only [List.map_cons, List.mem_cons]; exact Or.inr hto2
+            · rw [← hdp2]; exact (depositOk_congr hfr0.markers _ _ _).symm
+        · simp only [hd, if_false] at hmid
+          rcases hr d o hmid with h1 | ⟨he, to2, hto2, hdp2, hfin⟩
+          · exact Or.inl h1
+          · refine Or.inr ⟨he, to2, ?_, ?_, hfin⟩
+            · simp only [List.map_cons, List.mem_cons]; exact Or.inr hto2
+            · rw [← hdp2]; exact (depositOk_congr hfr0.markers _ _ _).symm
+
+theorem msend_step {s s' : State} {frm : Addr} {outs : List (Addr × List ScopeId)}
+    (hinv : Inv s) (h : bankMultiSend s frm outs = .ok s') :
+    Inv s' ∧ GoodStep s .send [frm] s' ∧ (∀ d, supply s'.ledger d = supply s.ledger d) := by
+  unfold bankMultiSend at h
+  split at h
+  · simp at h
+  · rename_i hvalid
+    simp only [Bool.or_eq_true, decide_eq_true_eq, not_or, List.any_eq_true, not_exists, not_and,
+      Bool.not_eq_true', Bool.not_eq_false] at hvalid
+    obtain ⟨⟨_, _⟩, hout⟩ := hvalid
+    have hto : ∀ o ∈ outs, o.1 ≠ "" := fun o ho e => by
+      have := hout o ho; simp [e] at this
+    have hnd : ∀ o ∈ outs, o.2.Nodup := fun o ho => by
+      have := hout o ho
+      apply nodupB_iff.mp
+      cases hc : nodupB o.2 with
+      | true => rfl
+      | false => simp [hc] at this
+    split at h
+    · simp at h
+    · split at h
+      · simp at h
+      · obtain ⟨hfr, hsup, hmoves⟩ := msendLoop_spec hnd h
+        refine ⟨?_, ?_, hsup⟩
+        · intro d hdd
+          obtain ⟨o, ho, hne, hsc⟩ := hinv d hdd
+          rcases hmoves d o ho with h1 | ⟨he, to, hmem, _, hfin⟩
+          · exact ⟨o, h1, hne, fun hso => by rw [hasScope_congr hfr.scopes]; exact hsc hso⟩
+          · obtain ⟨out, hout', rfl⟩ := List.mem_map.mp hmem
+            refine ⟨some out.1, hfin, fun e => hto out hout' (by injection e), fun _ => ?_⟩
+            rw [hasScope_congr hfr.scopes]
+            exact hsc (by rw [he]; rfl)
+        · intro d hdd o o' ho ho' hne
+          rcases hmoves d o ho with h1 | ⟨he, to, _, hdp, hfin⟩
+          · exact absurd (holderIs_unique h1 ho') hne
+          · have : o' = some to := holderIs_unique ho' hfin
+            subst this
+            subst he
+            refine ⟨fun x hx => ?_, fun x hx => ?_⟩
+            · injection hx with hx; subst hx; rfl
+            · injection hx with hx; subst hx
+              exact depositP_of_sender hdp
 
 /-! ### environment operations -/
 
+theorem fundAccount_spec {s s' : State} {a : Addr} {dn : Denom} {n : Nat} (h : fundAccount s a dn n = .ok s') :
+    s'.scopes = s.scopes ∧ s'.grants = s.grants ∧
+    ∀ d, isScopeDenom d = true → (supply s'.ledger d = supply s.ledger d ∧ ∀ x, bal s'.ledger x d = bal s.ledger x d) := by
+  unfold fundAccount at h
+  split at h
+  · simp at h
+  · rename_i hvalid
+    simp only [Bool.or_eq_true, decide_eq_true_eq, not_or, Bool.not_eq_true] at hvalid
+    simp at h; subst h
+    refine ⟨rfl, rfl, fun d hd => ?_⟩
+    have hne : ¬ dn = d := fun e => by rw [e, hd] at hvalid; exact absurd hvalid.2 (by simp)
+    simp [supply_credit, bal_credit, Coins.amountOf_cons, hne]
+
+theorem fund_step {s s' : State} {a : Addr} {dn : Denom} {n : Nat} (hinv : Inv s)
+    (h : fundAccount s a dn n = .ok s') (kind : StepKind) (sg : List Addr) :
+    Inv s' ∧ GoodStep s kind sg s' := by
+  obtain ⟨hsc, _, hsame⟩ := fundAccount_spec h
+  have hhold : ∀ d, isScopeDenom d = true → ∀ o, HolderIs s.ledger d o → HolderIs s'.ledger d o := by
+    intro d hd o ho
+    obtain ⟨h1, h2⟩ := hsame d hd
+    exact ⟨by rw [h1]; exact ho.1, fun x => by rw [h2 x]; exact ho.2 x⟩
+  refine ⟨fun d hd => ?_, fun d hd o o' ho ho' hne => ?_⟩
+  · obtain ⟨o, ho, hne, hs⟩ := hinv d hd
+    exact ⟨o, hhold d hd o ho, hne, fun hso => by rw [hasScope_congr hsc]; exact hs hso⟩
+  · exact absurd (holderIs_unique (hhold d hd o ho) ho') hne
+
 theorem inv_of_ledger_scopes_eq {s s' : State} (hinv : Inv s) (hl : s'.ledger = s.ledger)
     (hs : s'.scopes = s.scopes) : Inv s' := by
-  intro d
-  obtain ⟨o, ho, hne, hsc⟩ := hinv d
+  intro d hdd
+  obtain ⟨o, ho, hne, hsc⟩ := hinv d hdd
   exact ⟨o, by rw [hl]; exact ho, hne, fun hso => by rw [hasScope_congr hs]; exact hsc hso⟩
 
 theorem deleteGrant_eq {s s' : State} {gr ge : Addr} {mt : MsgType} (h : deleteGrant s gr ge mt = .ok s') :
